@@ -107,7 +107,7 @@ def at_scale_case(ctx, g, rng):
 
 
 def run_case(ctx, g, rng):
-    if g % 90 == 90 - 1:
+    if g % 89 == 89 - 1:
         return at_scale_case(ctx, g, rng)
     api, S = ctx.api, probe.S
     n = rng.choice([1, 2, 2, 3, 3, 4])
